@@ -399,6 +399,11 @@ for removed lines, the PLUS pair for added lines, `[]` for unchanged lines. -/
 def keepsRawLine (wordDiff inspect styleIsRaw : Bool) (raw : Bytes) (styles : List Style) : Bool :=
   Generated.emitRawLine wordDiff inspect (lineHasStyleOtherThan raw styles) styleIsRaw
 
+/-- `while !s.is_char_boundary(cut) { cut -= 1 }` -/
+def floorBoundary (s : Bytes) : Nat → Nat
+  | 0 => 0
+  | cut + 1 => if isBoundary s (cut + 1) then cut + 1 else floorBoundary s cut
+
 /-- `ansi_preserving_slice` -/
 def preservingSliceGo (s : Bytes) (start : Nat) : Nat → List Element → Except String Bytes
   | _, [] => .ok []
@@ -409,7 +414,9 @@ def preservingSliceGo (s : Bytes) (start : Nat) : Nat → List Element → Excep
         let index' := index + (e.stop - e.start)
         if index' ≤ start then (.ok [], index')
         else if i > start then (slice s e.start e.stop, index')
-        else (slice s (e.start + start - i) e.stop, index')
+        else
+          let cut := e.start + start - i
+          (slice s (if Generated.sliceFloorsCut then floorBoundary s cut else cut) e.stop, index')
       else (slice s e.start e.stop, index)
     match piece.1 with
     | .error m => .error m
